@@ -12,6 +12,7 @@ SHAPES = {
     "outer":  {"out": ["m", "n"], "facs": [{"t": "A", "ix": ["m"]}, {"t": "B", "ix": ["n"]}]},
     "matmul": {"out": ["m", "n"], "facs": [{"t": "A", "ix": ["m", "k"]}, {"t": "B", "ix": ["k", "n"]}]},
     "chain3": {"out": ["m"], "facs": [{"t": "A", "ix": ["m", "k"]}, {"t": "B", "ix": ["k"]}, {"t": "C", "ix": ["m"]}]},
+    "dot3":   {"out": [], "facs": [{"t": "A", "ix": ["k"]}, {"t": "B", "ix": ["k"]}, {"t": "C", "ix": ["k"]}]},
     "total":  {"out": [], "facs": [{"t": "A", "ix": ["m", "k"]}]},
     "vsum":   {"out": [], "facs": [{"t": "A", "ix": ["k"]}]},
     "tri":    {"out": ["m"], "facs": [{"t": "A", "ix": ["m", "k"]}, {"t": "B", "ix": ["k", "n"]}, {"t": "C", "ix": ["n"]}]},
